@@ -581,3 +581,219 @@ pub fn gen_hostile(t: &mut Tape, max_objects: usize) -> Doc {
     }
     doc
 }
+
+// ---------- scale: very long lines, very many lines ----------
+
+/// line lengths (in characters of fill) around the sizes at which readers typically change behaviour
+/// (4 KiB, the 8 KiB BufReader default, 16/32/64/128 KiB) and well beyond
+pub const LONG_LENS: &[usize] = &[4096, 8192, 8192, 16384, 32768, 65536, 65536, 65536, 70000, 131072, 131072, 200000];
+
+/// `chars` characters of fill without line breaks, commas or colons: ASCII, ASCII with inner blanks,
+/// 2-/3-byte characters, characters above U+FFFF (two UTF-16 units; optionally shifted by one BMP
+/// character so that pairs start at odd unit indices) or a mixture
+pub fn long_fill(t: &mut Tape, chars: usize) -> String {
+    let cyc: &[&str] = match t.below(7) {
+        0 => &["a"],
+        1 => &["a", "b", " ", "c"],
+        2 => &["\u{e9}"],
+        3 => &["\u{4e0a}"],
+        4 => &["\u{1F600}"],
+        5 => &["a", "\u{4e0a}", "\u{1F600}", "\u{e9}", " ", "z"],
+        _ => &["x", "\u{1F3B5}", "\u{1F3B5}", "\u{1F3B5}"],
+    };
+    let mut s = String::with_capacity(chars * 2);
+    if t.chance(50) {
+        s.push('q'); // parity shift for the UTF-16 unit index of the pairs
+    }
+    for i in 0..chars {
+        s.push_str(cyc[i % cyc.len()]);
+    }
+    s
+}
+
+/// a length near one of LONG_LENS (+-9)
+pub fn long_len(t: &mut Tape) -> usize {
+    let base = *t.pick(LONG_LENS);
+    (base as i64 + t.int(-9, 9)).max(1) as usize
+}
+
+/// one very long line for a document: (section header it belongs under, line)
+pub fn long_line(t: &mut Tape) -> (&'static str, String) {
+    let n = long_len(t);
+    match t.below(6) {
+        0 => ("[Metadata]", format!("Tags: {}", long_fill(t, n))),
+        1 => ("[Metadata]", format!("TitleUnicode:{}", long_fill(t, n))),
+        2 => ("[Events]", format!("// {}", long_fill(t, n))),
+        3 => ("[Editor]", format!("Bookmarks: {}", (0..n / 8 + 1).map(|i| (1000000 + i * 7).to_string()).collect::<Vec<_>>().join(","))),
+        4 => {
+            // a slider with very many anchors (about 8 bytes each)
+            let k = n / 8 + 2;
+            let pts: Vec<String> = (0..k).map(|i| format!("{}:{}", 100 + (i * 7) % 300, 100 + (i * 13) % 200)).collect();
+            ("[HitObjects]", format!("100,100,1000,2,0,B|{},1,100", pts.join("|")))
+        }
+        _ => ("[Difficulty]", format!("garbage {}", long_fill(t, n))),
+    }
+}
+
+/// a small accepted document with one very long line somewhere in it
+pub fn gen_long_line_doc(t: &mut Tape) -> String {
+    let (sec, line) = long_line(t);
+    let mut s = String::from("osu file format v14\n\n[General]\nMode: 1\n\n[Metadata]\nTitle:before\n\n");
+    s.push_str(sec);
+    s.push('\n');
+    if sec == "[HitObjects]" && t.chance(50) {
+        s.push_str("50,50,500,1,0\n");
+    }
+    s.push_str(&line);
+    s.push_str(if t.chance(30) { "\r\n" } else { "\n" });
+    if sec == "[HitObjects]" {
+        s.push_str("60,60,5000,1,0\n");
+    }
+    s.push_str("\n[Difficulty]\nCircleSize:3\nOverallDifficulty:7\n\n[TimingPoints]\n0,500,4,1,0,100,1,0\n");
+    if sec != "[HitObjects]" {
+        s.push_str("\n[HitObjects]\n100,100,1000,1,0\n");
+    }
+    s
+}
+
+/// a document with very many lines the parsers reject (storyboard commands, garbage) before real content
+pub fn gen_many_lines_doc(t: &mut Tape) -> String {
+    let n = *t.pick(&[1000usize, 4096, 65536, 65537, 65600, 70000, 131073]);
+    let (sec, line): (&str, &str) = *t.pick(&[
+        ("[Events]", " F,0,0,1000,1"),
+        ("[Events]", "Sprite,Foreground"),
+        ("[Difficulty]", "garbage"),
+        ("[TimingPoints]", "x,y"),
+        ("[HitObjects]", "1,2"),
+        ("[Colours]", "Combo1 : 1,2"),
+        ("[General]", "Mode: x"),
+    ]);
+    let mut s = String::with_capacity(n * (line.len() + 1) + 400);
+    s.push_str("osu file format v14\n\n[General]\nMode: 0\n\n");
+    s.push_str(sec);
+    s.push('\n');
+    for _ in 0..n {
+        s.push_str(line);
+        s.push('\n');
+    }
+    s.push_str("\n[Metadata]\nTitle:after\n\n[Difficulty]\nCircleSize:3\n\n[TimingPoints]\n0,500,4,1,0,100,1,0\n100,-50,4,1,0,100,0,0\n\n[Colours]\nCombo1 : 1,2,3\n\n[HitObjects]\n100,100,1000,1,0\n200,100,2000,2,0,L|300:100,1,100\n");
+    s
+}
+
+/// three integer points at large coordinates whose exact cross product is tiny (|cross| = m*s with small m, s):
+/// a = origin offset, b = a + m*v, c = b + n*v + s*w where v x w = 1 (extended gcd). The f32 circumcircle of
+/// such a triple computed from absolute coordinates cancels catastrophically.
+pub fn small_cross_triple(t: &mut Tape) -> [(i64, i64); 3] {
+    fn egcd(a: i64, b: i64) -> (i64, i64, i64) {
+        if b == 0 {
+            (a, 1, 0)
+        } else {
+            let (g, x, y) = egcd(b, a % b);
+            (g, y, x - (a / b) * y)
+        }
+    }
+    let (mut p, mut q) = (t.int(-40, 40), t.int(1, 3000));
+    if t.chance(50) {
+        std::mem::swap(&mut p, &mut q);
+    }
+    let (g, x, y) = egcd(p, q);
+    let (p, q) = (p / g, q / g);
+    // p*x + q*y = 1  =>  v = (p, q), w = (-y, x): v x w = p*x + q*y = 1
+    let w = (-y, x);
+    let m = t.int(1, 12);
+    let n = t.int(1, 12);
+    let sgn = if t.chance(50) { 1 } else { -1 };
+    let s_ = sgn * t.int(1, 12);
+    let a = (t.int(-60000, 60000), t.int(-60000, 60000));
+    let b = (a.0 + m * p, a.1 + m * q);
+    let c = (b.0 + n * p + s_ * w.0, b.1 + n * q + s_ * w.1);
+    [a, b, c]
+}
+
+/// a slider line with hostile geometry: up to four segments of any type whose points are nearly collinear
+/// at large coordinates (+-1..3 off a line), coincident, or spread over the whole +-131072 range
+pub fn geometry_slider(t: &mut Tape, time: i64) -> String {
+    let (x, y) = (t.int(0, 512), t.int(0, 384));
+    let nseg = 1 + t.below(4);
+    let mut out: Vec<String> = vec![];
+    let mut last = (x, y);
+    for _ in 0..nseg {
+        out.push((*t.pick(&["P", "P", "B", "L", "C", "B3", "P"])).to_string());
+        let np = 1 + t.below(4);
+        let dir = (t.int(-20000, 20000), t.int(-20000, 20000));
+        let style = t.below(5);
+        if style == 4 {
+            // exactly three points with a tiny exact cross product at large coordinates
+            for p in small_cross_triple(t) {
+                let p = (p.0.clamp(-131072, 131072), p.1.clamp(-131072, 131072));
+                out.push(format!("{}:{}", p.0, p.1));
+                last = p;
+            }
+            continue;
+        }
+        for _ in 0..np {
+            let p = match style {
+                // nearly collinear continuation
+                0 | 1 => {
+                    let f = t.int(1, 12);
+                    let q = if style == 0 { 12 } else { 1 };
+                    (last.0 + dir.0 * f / q + t.int(-3, 3), last.1 + dir.1 * f / q + t.int(-3, 3))
+                }
+                2 => (last.0 + t.int(-2, 2), last.1 + t.int(-2, 2)),
+                _ => (t.int(-131072, 131072), t.int(-131072, 131072)),
+            };
+            let p = (p.0.clamp(-131072, 131072), p.1.clamp(-131072, 131072));
+            out.push(format!("{}:{}", p.0, p.1));
+            last = p;
+        }
+    }
+    let rep = *t.pick(&[1u32, 1, 2, 3]);
+    let len = match t.below(5) {
+        0 => String::new(),
+        1 => ",0".to_string(),
+        2 => format!(",{}", t.int(1, 400)),
+        3 => format!(",{}", t.int(400, 100000)),
+        _ => ",100".to_string(),
+    };
+    format!("{x},{y},{time},2,0,{},{rep}{len}", out.join("|"))
+}
+
+/// a slider with very many repeats (up to the accepted maximum 9000 and just beyond) and / or very many anchors
+pub fn big_slider(t: &mut Tape, time: i64) -> String {
+    let rep = *t.pick(&[1u32, 100, 1000, 8999, 9000, 9000, 9001]);
+    let k = *t.pick(&[2usize, 50, 300, 1500, 3000]);
+    let pts: Vec<String> = (0..k).map(|i| format!("{}:{}", 100 + (i * 7) % 300, 100 + (i * 13) % 200)).collect();
+    let letter = *t.pick(&["B", "L", "C", "B"]);
+    let mut l = format!("100,100,{time},2,0,{letter}|{},{rep},{}", pts.join("|"), t.pick(&["50", "100", "0.5"]));
+    if t.chance(40) {
+        let nn = rep as usize + 1;
+        l.push(',');
+        l.push_str(&(0..nn).map(|i| ((i * 3) % 16).to_string()).collect::<Vec<_>>().join("|"));
+        if t.chance(60) {
+            l.push(',');
+            l.push_str(&(0..nn).map(|i| format!("{}:{}", i % 4, (i / 4) % 4)).collect::<Vec<_>>().join("|"));
+        }
+    }
+    l
+}
+
+/// scale / geometry documents shared by the file-level properties: one very long line, very many rejected
+/// lines, sliders with very many repeats / anchors, sliders with hostile geometry
+pub fn gen_scale_doc(t: &mut Tape) -> (String, &'static str) {
+    match t.weighted(&[3, 1, 3, 5]) {
+        0 => (gen_long_line_doc(t), "very long line"),
+        1 => (gen_many_lines_doc(t), "very many lines"),
+        k => {
+            let mode = t.below(4);
+            let ver = gen_version(t);
+            let mut s = format!("osu file format v{ver}\n\n[General]\nMode: {mode}\n\n[Difficulty]\nSliderMultiplier:{}\nSliderTickRate:{}\n\n[TimingPoints]\n0,{},4,1,0,100,1,0\n\n[HitObjects]\n", t.pick(&["1.4", "0.4", "3.6"]), t.pick(&["1", "0.5", "8"]), t.pick(&["500", "300", "60000", "6"]));
+            let n = 1 + t.below(3);
+            for i in 0..n {
+                let time = 1000 + 5000 * i as i64;
+                s.push_str(&if k == 2 { big_slider(t, time) } else { geometry_slider(t, time) });
+                s.push('\n');
+            }
+            (s, if k == 2 { "big slider" } else { "hostile slider geometry" })
+        }
+    }
+}
